@@ -309,3 +309,63 @@ def _range_next(eng, m, args, fr):
 @model(r'^<str as ToString>::to_string$|^format$|^std::fmt::format$|^alloc::fmt::format$|^core::fmt::rt::.*$')
 def _string(eng, m, args, fr):
     return Opaque('string')
+
+
+# ---------------------------------------------------------------- Rc / misc generic
+@model(r'^<Rc<.*> as Borrow<.*>>::borrow$|^<Rc<.*> as Deref>::deref$|^<Rc<.*> as AsRef<.*>>::as_ref$')
+def _rc_borrow(eng, m, args, fr):
+    rc = deref(eng, args[0], fr)
+    if not isinstance(rc, Cell):
+        raise Unsupported('Rc borrow of %r' % (rc,))
+    return Ref(rc)
+
+
+@model(r'^<Rc<.*> as Clone>::clone$')
+def _rc_clone(eng, m, args, fr):
+    return deref(eng, args[0], fr)
+
+
+@model(r'^Rc::<.*>::new$|^Rc::new$')
+def _rc_new(eng, m, args, fr):
+    return Cell(args[0])
+
+
+@model(r'^<Srcloc as Clone>::clone$')
+def _srcloc_clone(eng, m, args, fr):
+    return deref(eng, args[0], fr)
+
+
+@model(r'^core::fmt::rt::Argument::<.*>::new_(display|debug)::<.*>$|^Arguments::<.*>::new::<.*>$|^must_use::<.*>$|^core::fmt::.*$')
+def _fmt(eng, m, args, fr):
+    return Opaque('fmt')
+
+
+@model(r'^panic$|^core::panicking::.*$|^std::rt::begin_panic.*$')
+def _panic(eng, m, args, fr):
+    raise PathEnd('panic', 'explicit panic')
+
+
+# ---------------------------------------------------------------- clvmr Allocator as a store of trees
+class Tree:
+    def __init__(self, kind, a=None, b=None, atom=None):
+        self.kind, self.a, self.b, self.atom = kind, a, b, atom
+
+
+@model(r'^(allocator::)?Allocator::sexp$')
+def _alloc_sexp(eng, m, args, fr):
+    n = args[1]
+    if n.kind == 'atom':
+        return Enum('allocator::SExp', 'Atom', [])
+    return Enum('allocator::SExp', 'Pair', [n.a, n.b])
+
+
+@model(r'^(allocator::)?Allocator::nil$')
+def _alloc_nil(eng, m, args, fr):
+    return Tree('atom', atom=[])
+
+
+@model(r'^Vec::<.*>::push$')
+def _vec_push(eng, m, args, fr):
+    v = deref(eng, args[0], fr)
+    v.items.append(args[1])
+    return ()
